@@ -169,6 +169,21 @@ let () =
           let flat = hull_input_flat pts in
           Printf.printf "V %s hull %d %d %d %d %d %d %d %d %d\n" id code (b2i flat) m.nv m.nt (List.length pts) status simp_empty is_empty (b2i (vol.m = 0))
         | "MS" -> ms := t
+        | "CV" -> hs := t
+        | "CM" ->
+          let m = parse_mesh t 2 in
+          let t' = !hs in
+          let status = int_of_string t'.(2) and isconv = int_of_string t'.(3) and genus = int_of_string t'.(4) in
+          let emin = emin_of (mesh_dys m) in
+          let emin = (if emin = max_int then 0 else emin) - 40 in   (* spare bits so that scale/2^30 is representable *)
+          let vpos = Array.to_list (mesh_pts emin m) in
+          let it = List.init m.nt (fun i -> ((z_of_int m.ti.(3 * i), z_of_int m.ti.(3 * i + 1)), z_of_int m.ti.(3 * i + 2))) in
+          let s = if vpos = [] then z_of_int 1 else max_abs vpos in
+          (* exact global convexity: closed manifold, every vertex within eps = scale/2^30 of the inner side of every face plane *)
+          let e = zmax (shr s 30) (z_of_int 1) in
+          let code = int_of_z (hull_check_code vpos it vpos (zmul e e)) in
+          let flat = hull_input_flat vpos in
+          Printf.printf "V %s conv %d %d %d %d %d %d\n" id status isconv genus (b2i (code = 0 && not flat && m.nt > 0)) code m.nt
         | "MA" -> mA := Some (parse_mesh t 2)
         | "MB" -> mB := Some (parse_mesh t 2)
         | "MR" ->
@@ -211,8 +226,8 @@ let () =
             let m2 = zmul (z_of_int 2) reach in
             (* round the box outwards to multiples of 256 so the grid stays exact *)
             let dn v = shl (shr (zsub v m2) 8) 8 and up v = shl (zadd (shr (zadd v m2) 8) (z_of_int 1)) 8 in
-            let far_tested = ref 0 and far_inside = ref 0 and cert = ref true in
-            List.iter (fun p ->
+            let far_tested = ref 0 and far_inside = ref 0 and cert = ref true and far_first = ref "" in
+            let far_probe p =
                 if not (inside ta p) then begin
                   (* exact: is p farther than reach from every triangle of A? *)
                   let close = ref false in
@@ -221,12 +236,22 @@ let () =
                         (match pt_tri_dist2 p tri with None -> cert := false | Some d -> if qle_bool d reach_sq then close := true)) ba;
                   if not !close then begin
                     incr far_tested;
-                    if inside tr p then incr far_inside
+                    if inside tr p then begin
+                      incr far_inside;
+                      if !far_first = "" then begin
+                        let ((x, y), z) = p in
+                        far_first := Printf.sprintf "far=(%g,%g,%g)" (float_of_z x *. 2.0 ** float_of_int emin) (float_of_z y *. 2.0 ** float_of_int emin) (float_of_z z *. 2.0 ** float_of_int emin)
+                      end
+                    end
                   end
-                end) (grid 5 ((dn x0, up x1), (dn y0, up y1), (dn z0, up z1)));
+                end in
+            (* around the result (inflated box) and, densely, inside the box of A itself: gaps between
+               components of A and concavities of A are sampled there *)
+            List.iter far_probe (grid 5 ((dn x0, up x1), (dn y0, up y1), (dn z0, up z1)));
+            List.iter far_probe (grid 7 (bbox_pts pa));
             if not !cert then Printf.printf "V %s mink CERTFAIL\n" id
             else Printf.printf "V %s sum %d %d %d %d %d %d %d %d %d %d %d %d %d | %s\n" id status (b2i origin_in_b) (b2i r_closed)
-                (List.length sa) (List.length sb) !tested !missing !skipped !a_tested !a_missing !far_tested !far_inside r.nt !first
+                (List.length sa) (List.length sb) !tested !missing !skipped !a_tested !a_missing !far_tested !far_inside r.nt (!first ^ " " ^ !far_first)
           end else begin
             (* Difference: D subset of A; p - b in A for p in D, b in B *)
             let sd = if tr = [] then [] else List.filter (fun p -> inside tr p && not (near3 p br rr)) (grid 5 (bbox_pts (tri_pts tr))) in
